@@ -355,11 +355,15 @@ Definition decl_check (d : xdecl) (fullname tyname : name) (repeated : bool) : l
        ++ (if Bool.eqb (xd_repeated d) repeated then [] else [EExtDeclRepeated]).
 
 (* the inner loop over the declarations of one range: the first one with the number decides *)
-Fixpoint decl_loop (ds : list xdecl) (num : Z) (fullname tyname : name) (repeated : bool) : list ecls :=
+(* [miss]: what happens when no declaration carries the number.  The Go code reports it; but it
+   looks for the position of the verification option in the file of the EXTENSION
+   (findExtensionRangeOptionSpan(fd.ParentFile(), ...)), so when the extendee lives in another file
+   the node lookup yields nil and the compile of the file panics (ECompilerPanic) *)
+Fixpoint decl_loop (miss : ecls) (ds : list xdecl) (num : Z) (fullname tyname : name) (repeated : bool) : list ecls :=
   match ds with
-  | [] => [EExtDeclMissing]
+  | [] => [miss]
   | d :: r => if opt_Z (xd_number d) =? num then decl_check d fullname tyname repeated
-              else decl_loop r num fullname tyname repeated
+              else decl_loop miss r num fullname tyname repeated
   end.
 
 (* a range asks for declarations when it has some, or says verification = DECLARATION *)
@@ -370,26 +374,26 @@ Definition demands (o : xopts) : bool :=
 (* the loop over md.ExtensionRange as it is: ranges that do not contain the number are skipped;
    a containing range without options, or one that does not ask for declarations, ends the loop;
    after a checked range the loop goes on *)
-Fixpoint go_ext_decl_errs (xrs : list xrange) (num : Z) (fullname tyname : name) (repeated : bool) : list ecls :=
+Fixpoint go_ext_decl_errs (miss : ecls) (xrs : list xrange) (num : Z) (fullname tyname : name) (repeated : bool) : list ecls :=
   match xrs with
   | [] => []
   | x :: r =>
-    if (num <? fst (xr_rng x)) || (num >=? snd (xr_rng x)) then go_ext_decl_errs r num fullname tyname repeated
+    if (num <? fst (xr_rng x)) || (num >=? snd (xr_rng x)) then go_ext_decl_errs miss r num fullname tyname repeated
     else match xr_opts x with
          | None => []
          | Some o =>
-           if demands o then decl_loop (xo_decls o) num fullname tyname repeated
-                             ++ go_ext_decl_errs r num fullname tyname repeated
+           if demands o then decl_loop miss (xo_decls o) num fullname tyname repeated
+                             ++ go_ext_decl_errs miss r num fullname tyname repeated
            else []
          end
   end.
 
 (* protoc: the range that contains the number is the one consulted *)
-Definition spec_ext_decl_errs (xrs : list xrange) (num : Z) (fullname tyname : name) (repeated : bool) : list ecls :=
+Definition spec_ext_decl_errs (miss : ecls) (xrs : list xrange) (num : Z) (fullname tyname : name) (repeated : bool) : list ecls :=
   match find (fun x => in_ho_b num (xr_rng x)) xrs with
   | None => []
   | Some x => match xr_opts x with
-              | Some o => if demands o then decl_loop (xo_decls o) num fullname tyname repeated else []
+              | Some o => if demands o then decl_loop miss (xo_decls o) num fullname tyname repeated else []
               | None => []
               end
   end.
@@ -467,7 +471,8 @@ Definition resolve_ref (c : cfg) (U : Resolve.universe) (path : list name) (elem
 
 (* ---- resolveFieldTypes ---- *)
 Record lctx := mkLCtx { lc_cfg : cfg; lc_files : list cfile; lc_self : dfile; lc_U : Resolve.universe;
-                        lc_vis : list sym; lc_xdecls : list (name * list xrange) }.
+                        lc_vis : list sym; lc_xdecls : list (name * list xrange);
+                        lc_xself : name -> bool   (* is this message declared in the file being compiled *) }.
 
 Definition info_of (L : lctx) (n : name) : sinfo :=
   match find_sym n (lc_vis L) with Some s => s_info s | None => INone end.
@@ -604,7 +609,7 @@ Definition resolve_service (L : lctx) (s : dservice) : dservice * list ecls :=
 
 (* resolveReferences *)
 Definition resolve_file (c : cfg) (cs : list cfile) (X : extnums) (d : dfile) : dfile * extnums * list ecls :=
-  let L := mkLCtx c cs d (universe_of cs d) (all_visible_syms cs d) [] in
+  let L := mkLCtx c cs d (universe_of cs d) (all_visible_syms cs d) [] (fun _ => true) in
   let '(msgs, X1, e1) := resolve_msgs L X (dfl_msgs d) in
   let '(exts, X2, e2) := resolve_fields L [] true X1 (dfl_exts d) in
   let svcs := map (resolve_service L) (dfl_services d) in
@@ -737,7 +742,7 @@ Fixpoint options_msg (L : lctx) (m : dmsg) : dmsg * list ecls :=
 
 (* interpretFileOptions: messages, then file-level extensions *)
 Definition options_file (c : cfg) (cs : list cfile) (d : dfile) : dfile * list ecls :=
-  let L := mkLCtx c cs d (universe_of cs d) (all_visible_syms cs d) [] in
+  let L := mkLCtx c cs d (universe_of cs d) (all_visible_syms cs d) [] (fun _ => true) in
   let ms := map (options_msg L) (dfl_msgs d) in
   let '(x1, e2) := map_fields_errs (pseudo_options L) (dfl_exts d) in
   (mkDFile (dfl_name d) (dfl_package d) (dfl_syntax d) (dfl_deps d) (dfl_public d) (dfl_weak d)
@@ -860,7 +865,8 @@ Definition validate_field_link (L : lctx) (parent : name) (fd : dfield) : list e
      (match df_extendee fd with
       | Some (_ :: x) =>
         let xrs := match assoc_name x (lc_xdecls L) with Some l => l | None => [] end in
-        (if c_spec_extdecl (lc_cfg L) then spec_ext_decl_errs else go_ext_decl_errs)
+        (if c_spec_extdecl (lc_cfg L) then spec_ext_decl_errs EExtDeclMissing
+         else go_ext_decl_errs (if lc_xself L x then EExtDeclMissing else ECompilerPanic))
           xrs (df_number fd) (qual parent (df_name fd)) (field_type_name fd) (is_label (df_label fd) DRepeated)
       | _ => []
       end).
@@ -882,7 +888,8 @@ Fixpoint validate_msg_link (L : lctx) (parent : name) (m : dmsg) : list ecls :=
 
 Definition validate_options (c : cfg) (cs : list cfile) (xself : list (name * list xrange)) (d : dfile) : list ecls :=
   let L := mkLCtx c cs d (universe_of cs d) (all_visible_syms cs d)
-                  (xself ++ flat_map cf_xdecls (visible_deps cs d)) in
+                  (xself ++ flat_map cf_xdecls (visible_deps cs d))
+                  (fun x => is_some (assoc_name x xself)) in
   flat_map (validate_msg_link L (pkg_of d)) (dfl_msgs d)
   ++ flat_map (validate_enum_link (dfl_syntax d)) (dfl_enums d)
   ++ flat_map (validate_field_link L (pkg_of d)) (dfl_exts d).
@@ -946,7 +953,9 @@ From PV Require Import Common.Corr.
 
 Definition opt_ecls_eqb (a b : option ecls) : bool :=
   match a, b with Some x, Some y => ecls_eqb x y | None, None => true | _, _ => false end.
-Definition res_cls (r : fres) : option ecls := match r with FErr e => Some e | _ => None end.
+(* a panic aborts the compile of the file without a report *)
+Definition res_cls (r : fres) : option ecls :=
+  match r with FErr ECompilerPanic => None | FErr e => Some e | _ => None end.
 
 (* files in compile order, the verdict, and per file the class of the first error reported for it *)
 Inductive c01_case := C01Case (files : list sfile) (ok : bool) (first : list (name * option ecls)).
